@@ -358,10 +358,57 @@ def search_case(rng, shape, cplx, aniso, np_seed=None):
     return None
 
 
+def search_volume_model(rng):
+    """VolumeModel coefficients against the documented formulas
+    eta = -s mu0 V (sigma + s eps0 eps_r), zeta = V / mu_r (numpy oracle)."""
+    import emg3d
+    import scipy.constants as sc
+    npr = np.random.RandomState(rng.randint(0, 2**31 - 1))
+    for freq in (1.0, 2e7, -2.5, -1e8, 0.01):
+        for casek in range(4):
+            for has_mu, has_eps in ((False, False), (True, False), (False, True), (True, True)):
+                shape = (2, 3, 2)
+                hs = [npr.uniform(0.5, 3.0, n) for n in shape]
+                grid = emg3d.TensorMesh(hs, (0, 0, 0))
+                kw = dict(property_x=npr.uniform(0.1, 5, shape))
+                if casek in (1, 3):
+                    kw['property_y'] = npr.uniform(0.1, 5, shape)
+                if casek in (2, 3):
+                    kw['property_z'] = npr.uniform(0.1, 5, shape)
+                if has_mu:
+                    kw['mu_r'] = npr.uniform(0.5, 2, shape)
+                if has_eps:
+                    kw['epsilon_r'] = npr.uniform(1, 80, shape)
+                model = emg3d.Model(grid, **kw)
+                sf = emg3d.Field(grid, frequency=freq)
+                vm = emg3d.models.VolumeModel(model, sf)
+                s = complex(sf.sval)
+                vol = np.multiply.outer(np.multiply.outer(hs[0], hs[1]), hs[2])
+                eps = kw.get('epsilon_r', 0.0) if has_eps else 0.0
+                want = {}
+                sig = {'x': kw['property_x'], 'y': kw.get('property_y', kw['property_x']),
+                       'z': kw.get('property_z', kw['property_x'])}
+                for d in 'xyz':
+                    want['eta_' + d] = -s * sc.mu_0 * vol * (sig[d] + s * sc.epsilon_0 * eps)
+                want['zeta'] = vol / kw['mu_r'] if has_mu else vol
+                for nm, w in want.items():
+                    got = np.asarray(getattr(vm, nm), complex)
+                    if np.max(np.abs(got - w)) > 1e-10 * np.max(np.abs(w)):
+                        k = np.unravel_index(np.argmax(np.abs(got - w)), w.shape)
+                        return {'signature': 'VolumeModel coefficient differs from -s mu0 V (sigma + s eps0 eps_r) / V/mu_r',
+                                'which': nm, 'frequency': freq, 'aniso': casek, 'mu_r': has_mu,
+                                'epsilon_r': has_eps, 'cell': [int(x) for x in k],
+                                'observed': str(got[k]), 'required': str(w[k])}
+    return None
+
+
 def search(ctx, broken):
     rng = ctx.rng
     n = 60 if ctx.thorough else 25
     hits = []
+    h = search_volume_model(rng)
+    if h:
+        return [h]
     combos = [((2, 2, 2), False, 0), ((3, 2, 4), True, 3), ((4, 4, 3), True, 1),
               ((3, 5, 2), False, 2)]
     while len(combos) < n:
@@ -378,6 +425,8 @@ def search(ctx, broken):
 
 def replay(ctx, payload):
     fi = payload.get('failing_input')
+    if fi and fi.get('signature', '').startswith('VolumeModel'):
+        return search_volume_model(ctx.rng) is None
     if not fi or 'shape' not in fi:
         return False
     h = search_case(ctx.rng, tuple(fi['shape']), fi['complex'], fi['aniso'], fi.get('np_seed'))
